@@ -527,7 +527,7 @@ done:
 }
 
 func c03Gen(r *rand.Rand, tier string) *sim.Scn {
-	if r.IntN(10) == 0 || os.Getenv("VERIF_C03_WHOLE_ONLY") != "" {
+	if (r.IntN(10) == 0 && os.Getenv("VERIF_NO_WHOLE") == "") || os.Getenv("VERIF_C03_WHOLE_ONLY") != "" {
 		return c03WholeGen(r, tier)
 	}
 	s := &sim.Scn{Cfg: map[string]int64{}}
